@@ -1238,6 +1238,10 @@ int NinjaMain::ToolRestat(const Options* options, int argc, char* argv[]) {
   for (size_t i = 0; i < outputs.size(); ++i)
     output_args.push_back(&outputs[i][0]);
 
+  // Restat() rewrites the log on disk: a dry run stops here.
+  if (config_.dry_run)
+    return EXIT_SUCCESS;
+
   bool success = build_log_.Restat(log_path, disk_interface_, argc,
                                    output_args.data(), &err);
   if (!success) {
